@@ -26,9 +26,9 @@ LEAN_MODULES = ["MpfVerif.Props.C13"]
 PROPS_FILE = "MpfVerif/Props/C13.lean"
 GEN = []
 MANIFEST = {
-  "text": "Proof on a Lean model of DelayManager (dict of named delays + the set of live loop handles, kept separately) and PeriodicTask, with callbacks as arbitrary programs that re-add/remove/run_now/clear on the same manager and the event loop's choice among due timers left open: for every program table and every sequence of add/add_if_doesnt_exist/reset/remove/clear/run_now/check calls, time steps and timer firings, a handle fires only at exactly its due tick with the callback and argument it was scheduled with, at most once, never after it was cancelled (remove, replace under the same name, clear, run_now), every scheduled handle is fired, cancelled or still pending and never overdue; the dict and the live handles stay coupled (so check() is truthful and run_now calls the stored callback with the stored argument and cancels the handle); the n-th tick of a periodic task is at t0 + n*interval exactly and no tick follows cancel. The model is tied to delays.py/clock.py by a correspondence run on real machines (fresh, machine-wide and mode-owned DelayManager, real PeriodicTask) every check; Timer devices and mode stop are checked by the implementation oracle only.",
-  "note": "Trusted: Lean kernel + {propext, Quot.sound, Classical.choice}; hand-written Model/Delay.lean validated by differential runs; asyncio's timer heap and mpf.tests TimeTravelLoop (time cannot pass a due live handle: built into the model's `to` step); times on a 1/8 s grid (floats exact). Timer device (timer.py) and Mode.stop are covered by the executable oracle, not by theorems.",
-  "technique": "Lean 4 invariants over all op sequences/schedules (induction over the op list, fuel-bounded agenda for callback programs) on a hand model + differential correspondence with the real DelayManager/PeriodicTask + executable oracle for Timer devices and mode stop",
+  "text": "Proof on a Lean model of DelayManager (dict of named delays + the set of live loop handles, kept separately) and PeriodicTask, with callbacks as arbitrary programs that re-add/remove/run_now/clear on the same manager and the event loop's choice among due timers left open: for every program table and every sequence of add/add_if_doesnt_exist/reset/remove/clear/run_now/check calls, time steps and timer firings, a handle fires only at exactly its due tick with the callback and argument it was scheduled with, at most once, never after it was cancelled (remove, replace under the same name, clear, run_now), every scheduled handle is fired, cancelled or still pending and never overdue; the dict and the live handles stay coupled (so check() is truthful and run_now calls the stored callback with the stored argument and cancels the handle); the n-th tick of a periodic task is at t0 + n*interval exactly and no tick follows cancel. A second Lean model covers the Timer device (running, count, tick interval, system timer, pending timed pause; start/stop/pause/add/subtract/jump/reset/restart/set_ and change_tick_interval, clock runs and pause end): in every reachable state a tick event is posted only by a running timer with its current count not at the end value and a stopped or untimed-paused timer stays silent while only time passes, clock ticks are exactly one interval after the timer was armed or last ticked, complete is posted exactly when a count change reaches the end value (then the timer is stopped, or restarted from its start value with restart_on_complete), a timed pause resumes exactly once at now+ms unless stop cancels it. Both models are tied to delays.py/clock.py/timer.py by correspondence runs on real machines (fresh, machine-wide and mode-owned DelayManager, real PeriodicTask, real Timer in a mode driven through control events) every check; mode stop is checked by the implementation oracle only.",
+  "note": "Trusted: Lean kernel + {propext, Quot.sound, Classical.choice}; hand-written Model/Delay.lean validated by differential runs; asyncio's timer heap and mpf.tests TimeTravelLoop (time cannot pass a due live handle: built into the model's `to` step); times on a 1/8 s grid (floats exact). Mode.stop is covered by the executable oracle, not by theorems. Timer operations are issued through control events (template values) listed with the value-less actions first.",
+  "technique": "Lean 4 invariants over all op sequences/schedules (induction over the op list, fuel-bounded agenda for callback programs) on two hand models (delays/periodic tasks, Timer device) + differential correspondence with the real DelayManager/PeriodicTask/Timer + executable oracles (timeline reference for timers, mode stop)",
   "translated": False,
 }
 RULE = ("cases: (a) 6-30 ops over 4 names (+ anonymous uuid names), 4 callbacks with generated programs of 0-3 commands "
@@ -42,9 +42,16 @@ TRUSTED = [
     "modelled, not verified: asyncio timer heap / TimeTravelLoop (a due live handle runs before time passes it; same-instant "
     "order taken from the implementation and validated by the model), functools.partial, dict insertion order",
     "Model/Delay.lean is hand-written; tied to mpf/core/delays.py and mpf/core/clock.py by correspondence on every run",
-    "mpf/devices/timer.py and Mode.stop(): executable oracle on the real code only (no theorem)",
+    "Model/TimerDevice.lean is hand-written; tied to mpf/devices/timer.py by correspondence on every run (and an independent "
+    "Python reference trace); Mode.stop(): executable oracle on the real code only (no theorem)",
 ]
 ASSUMPTIONS = ["delays and intervals are non-negative multiples of 125 ms; periodic interval > 0",
+               "timer: the (clipped) start value is not itself at/past the end value (otherwise restart_on_complete recurses for ever "
+               "in the real code; the model answers `diverge`); tick-interval changes by integer factors",
+               "timer operations arrive as control events with template values, value-less actions (start/stop/reset/restart) "
+               "listed before value actions: outside C13's statement but wrong in the code - a value-less action listed after a "
+               "value action inherits its timer_value and reset/restart crash (repair on branch verif-C13C03b, then run with "
+               "VERIF_C13_CE_SHUFFLE=1); a direct Timer.pause(<number>) takes the number as ms although documented as seconds",
                "callbacks do not raise; callback programs are cut after 48 commands per loop callback (model and harness alike)"]
 
 TICK = 0.125
@@ -263,16 +270,23 @@ class DelayRun:
             raise InfraError("unknown command %r" % (c,))
 
     # driver --------------------------------------------------------------------------------------------
-    def run(self):
+    def run(self, shared_vm=None):
+        """shared_vm: an already booted machine to run a `fresh` case on (a new DelayManager per case; used by the
+        exhaustive small-scope enumeration, where a boot per sequence would dominate)"""
         from mpf.core.delays import DelayManager
-        if self.kind == "mode":
-            self.vm = VMachine(CONFIG + MODE_CONFIG, modes={"m1": MODE_YAML})
+        if shared_vm is not None:
+            if self.kind != "fresh":
+                raise InfraError("only fresh-manager cases can share a machine")
+            self.vm = shared_vm
         else:
-            self.vm = VMachine(CONFIG)
-        try:
-            self.vm.start()
-        except BootError as e:
-            raise InfraError("C13 machine does not boot: %s" % e)
+            if self.kind == "mode":
+                self.vm = VMachine(CONFIG + MODE_CONFIG, modes={"m1": MODE_YAML})
+            else:
+                self.vm = VMachine(CONFIG)
+            try:
+                self.vm.start()
+            except BootError as e:
+                raise InfraError("C13 machine does not boot: %s" % e)
         try:
             vm = self.vm
             m = vm.machine
@@ -317,7 +331,10 @@ class DelayRun:
             self.pending = self.pending_line()
         finally:
             self.finished = True
-            self.vm.stop()
+            if shared_vm is None:
+                self.vm.stop()
+            else:
+                self.vm = None
         return self
 
     def mstop(self, prog):
@@ -496,9 +513,9 @@ def nontrivial(run):
     return fired and (inner or canc)
 
 
-def check_case(ctx, case, model, shrink=True):
-    run = DelayRun(case).run()
-    ctx.evaluated(case, nontrivial(run))
+def check_case(ctx, case, model, shrink=True, shared_vm=None, sample=True):
+    run = DelayRun(case).run(shared_vm)
+    ctx.evaluated(case, nontrivial(run), sample=sample)
     for g in run.groups:
         ctx.count("grp_" + g["head"][0])
     for e in run.log:
@@ -759,6 +776,8 @@ def timer_oracle(run):
     """The property's timer clause evaluated on the real event log: `complete` only with the count at/past the end value,
     no `tick` event with the count at/past the end value (direct statements), then the full reference trace below."""
     if run.crash:
+        if "multiple values for argument 'timer_value'" in run.crash:
+            return "timer-control-event-kwargs-leak", {"error": run.crash}
         return "timer-crash", {"error": run.crash}
     c = run.case["cfg"]
     up = c["direction"] == "up"
@@ -1033,6 +1052,50 @@ CORPUS = [
 ]
 
 
+EXH_PROGS = {"0": [], "1": [["add", 1, 0, 0, 5]], "2": [], "3": []}
+EXH_ALPHABET = [["cmd", ["add", 1, 0, 0, 1]], ["cmd", ["add", 2, 0, 1, 2]], ["cmd", ["addif", 2, 0, 0, 3]],
+                ["cmd", ["reset", 1, 0, 1, 4]], ["cmd", ["rm", 0]], ["cmd", ["runnow", 0]], ["cmd", ["check", 0]],
+                ["adv", 1], ["adv", 2]]
+EXH_SMALL = [EXH_ALPHABET[0], EXH_ALPHABET[3], EXH_ALPHABET[4], EXH_ALPHABET[5], EXH_ALPHABET[7], EXH_ALPHABET[8]]
+EXH_SPACES = [(EXH_ALPHABET, 5), (EXH_SMALL, 6)]
+
+
+def exhaustive(ctx, model, spaces=None):
+    """every op sequence of length <= L over an alphabet (one delay name, delays of 1 and 2 ticks, a callback that re-adds
+    the name, advances of 1 and 2 ticks), each followed by a 3-tick flush, through oracle and correspondence; one real
+    machine is shared, every sequence gets a new DelayManager"""
+    import itertools
+    vm = None
+    total = 0
+    desc = []
+    try:
+        for alphabet, maxlen in (spaces or EXH_SPACES):
+            n = 0
+            for L in range(0, maxlen + 1):
+                for seq in itertools.product(alphabet, repeat=L):
+                    if vm is None or total % 4000 == 0:
+                        if vm is not None:
+                            vm.stop()
+                            mpfleak.release()
+                        vm = VMachine(CONFIG)
+                        try:
+                            vm.start()
+                        except BootError as e:
+                            raise InfraError("C13 machine does not boot: %s" % e)
+                    case = {"kind": "fresh", "progs": EXH_PROGS, "ops": [list(o) for o in seq] + [["adv", 3]]}
+                    check_case(ctx, case, model, shared_vm=vm, sample=False)
+                    n += 1
+                    total += 1
+            desc.append("all %d op sequences of length <= %d over the %d-op alphabet %s" % (n, maxlen, len(alphabet),
+                                                                                         json.dumps(alphabet)))
+    finally:
+        if vm is not None:
+            vm.stop()
+    ctx.exhaustive = True
+    ctx.notes["exhaustive_subspace"] = ("; ".join(desc) + " (one delay name, callback 1 re-adds the name; each sequence "
+                                         "followed by a 3-tick advance; a new DelayManager per sequence on a shared machine)")
+
+
 def run(ctx):
     model = None if getattr(ctx, "model_unavailable", False) else leanproc.LeanProc(ID)
     try:
@@ -1048,6 +1111,8 @@ def run(ctx):
             check_timer_case(ctx, gen_timer_case(ctx.rng("timer", i)), model=model)
             if i % 200 == 199:
                 mpfleak.release()
+        if ctx.tier == "thorough" and not ctx.search and not ctx.failures and not ctx.disagreements:
+            exhaustive(ctx, model)
     finally:
         if model is not None:
             model.close()
